@@ -9,6 +9,7 @@ Tokens: a file / record is `<name hex>:<content hex>`; lists are length-prefixed
 
 * `C18.v1.names <name>` → classification of a file name by `KeyBackuper`
 * `C18.v1.export <master> <n> <file>… ids <k> <kind>:<ctx>… | mode <all|private|public|other>` → `ok <n> <rec>…` | `err`
+* `C18.v1.exportd <spelling> …` = `C18.v1.export …` with the source key directory spelled with a trailing `/`, `./`, `x/../`, `//`
 * `C18.v1.bundle <keys> <data>` → `ok <plaintext hex> resealed=<0|1>` | `err`
 * `C18.v1.import <master> <nt> <file>… <nr> <rec>… <no> <observed file>…` → `ok|err <n> <file>…` (sorted)
 * `C18.v1.classify <path>` → purpose, id and slot of `ClassifyExportedKey`
@@ -82,8 +83,10 @@ def showV2Key (k : MigrateV1.V2Key) : String :=
 def showV2Ring (r : MigrateV1.V2Ring) : String :=
   s!"{hexOf r.path};{r.current};" ++ (if r.keys.isEmpty then "-" else "|".intercalate (r.keys.map showV2Key))
 
-def handleC18 (op : String) (args : List String) : Option String :=
+partial def handleC18 (op : String) (args : List String) : Option String :=
   match op, args with
+  -- the same export with the key directory spelled non-canonically (`<k>` = spelling, ignored by the model)
+  | "v1.exportd", _ :: rest => handleC18 "v1.export" rest
   | "v1.names", [n] => do
       let n ← ofHex n
       pure s!"hist={b01 (isHistorical n)} priv={b01 (isPrivate n)} pub={b01 (isPublic n)} ctx={showCtx (ctxOfName n)} describe={b01 (describeOk (base n))} valid={b01 (validateID n)} base={hexOf (base n)} dir={hexOf (dirOf n)}"
